@@ -1,4 +1,4 @@
-import PV.Lemmas.Socket
+import PV.Lemmas.SocketCalls
 /-!
 # C09 — Sockets deliver data intact despite retries
 
@@ -9,17 +9,6 @@ namespace PV.Socket
 open PV.Generated.Socket
 
 /-! ## 1. EINTR / would-block transparency (blocking mode) -/
-
-private theorem loop_call_transparent (s : Sock) (hb : s.blocking = true) (cond : Int) (call : Issued) (msg : String)
-    (script : Script) (e : Int) :
-    (runLoop (loopCfg s cond call msg) { script := script, errno := e }).full =
-    (runLoop (loopCfg s cond call msg)
-      { script := (dropRetries call.sys script e).1, errno := (dropRetries call.sys script e).2 }).full := by
-  unfold runLoop
-  apply liftLoop_full
-  have : startPhase (loopCfg s cond call msg) = .wait := by simp [startPhase, loopCfg, hb]
-  rw [this]
-  exact ioLoop_dropRetries (loopCfg s cond call msg) (by simp [loopCfg, hb]) script e
 
 /-- `p_socket_receive`, blocking: the result on any script equals the result on the script with every
     `poll → EINTR` and every `poll → 1, recv → EINTR | EAGAIN` round removed. -/
@@ -231,39 +220,6 @@ example :
   decide
 
 /-! ## 2. `returns_kernel_count` -/
-
-/-- what "exactly one successful native data call, its count returned, nothing afterwards" means -/
-structure OneDataCall (dataCall : Issued) (script : Script) (r : CallResult) (k : Nat) (res : Res) (pre : List Ev) : Prop where
-  /-- the trace ends with the data call that succeeded … -/
-  trace : r.tr = pre ++ [⟨dataCall, res⟩]
-  /-- … which returned `k`, and `k` is what the caller gets -/
-  count : res.ret = .ok k
-  ret : r.out.ret = Int.ofNat k
-  /-- every earlier attempt had failed (no second successful read / no resend) -/
-  earlier_failed : ∀ ev ∈ pre, ev.call = dataCall → ev.res.failed = true
-  /-- every native call of the trace is the `poll` of the wait or the data call with the *same* arguments -/
-  same_args : ∀ ev ∈ r.tr, ev.call.sys = dataCall.sys → ev.call = dataCall
-  /-- the script is consumed exactly up to the successful answer: no further native call is made -/
-  nothing_after : script = pre.map (·.res) ++ res :: r.rest
-
-private theorem one_data_call (s : Sock) (c : LoopCfg) (hpc : c.poll ≠ c.call) (hps : c.poll.sys ≠ c.call.sys) (ph : Phase)
-    (onDone : Res → Outcome) (hd : ∀ x, (onDone x).err = none) (hr : ∀ x, (onDone x).ret = retVal x)
-    (script : Script) (e : Int) (r : CallResult)
-    (h : ofLoop s (ioLoop c ph script e) onDone (-1) = .ok r) (hok : r.out.err = none) :
-    ∃ k res pre, OneDataCall c.call script r k res pre := by
-  obtain ⟨res, hf, hr'⟩ := ofLoop_ok_noerr _ _ _ _ _ hd h hok
-  obtain ⟨pre, h1, h2, h3, h4, h5⟩ := ioLoop_done c hpc ph script e res hf
-  cases hret : res.ret with
-  | err x => simp [Res.failed, hret] at h3
-  | ok k =>
-    refine ⟨k, res, pre, ?_⟩
-    subst hr'
-    refine ⟨h1, hret, ?_, h2, ?_, h5⟩
-    · simp [hr, retVal, hret]
-    · intro ev hev hs
-      rcases ioLoop_calls c ph script e ev hev with h | h
-      · rw [h] at hs; exact absurd hs hps
-      · exact h
 
 /-- `p_socket_send`: a successful call returns exactly the count of the one native `send` that
     succeeded, every `send` issued carries the caller's buffer (offset 0), `(socklen_t) buflen`, and the
